@@ -66,6 +66,15 @@ def systematic(fam, profile):
                                  ("fit_other", 1, "default"), ("use_other", 1, 2), ("to_json",), p(mid)]))
         out.append(("fitted", [("fit_other", 0, "default"), ("fit_other", 1, "default"), ("use_other", 0, 0), p(small),
                                ("use_other", 1, 1)]))
+    if fam == "Billing" and profile == "default":
+        # the second frame accessor of the billing classes and the model that reads its input through it
+        b0 = ("O", ix(fam, "B.other1"))
+        r0 = ("O", ix(fam, P + mid))
+        out.append(("fitted", [("df", b0, 1), ("df", r0, 1), ("fit_other", 0, "weighted"), ("use_other", 0, 1), ("use_other", 0, 3),
+                               ("df", b0, 1), ("df", r0, 1), ("mutate", "H", 0, 1), ("mutate", "H", 1, 0), ("df", b0, 1), ("df", r0, 0),
+                               p(mid)]))
+        out.append(("live", [("fit_other", 1, "weighted"), ("use_other", 0, 0), p(small), ("df", ("O", ix(fam, P + small)), 1),
+                             ("mutate", "H", 1, 2), p(small)]))
     if fam == "Hourly" and profile == "supp":
         q = ("predict", ix(fam, "H.rep_1weekb_occ"))
         out.append(("fitted", [p("1weekb"), q, p("1weekb"), ("to_json",), p("fullyear")]))
@@ -111,8 +120,8 @@ def random_history(rng, fam, profile, maxlen=9):
             ops.append(("reload",))
         elif x < 0.72 and nfit < 2 and fam not in ("Caltrack",):
             cross = {"Daily": "Billing", "Billing": "Daily"}.get(fam)
-            o = ("fit_other", rng.randrange(4), rng.choice(["default", "lowthr"]))
-            if cross and rng.random() < 0.3:
+            o = ("fit_other", rng.randrange(4), rng.choice(["default", "lowthr"] + (["weighted"] if fam == "Billing" else [])))
+            if cross and o[2] != "weighted" and rng.random() < 0.3:
                 o = o + (cross,)
             ops.append(o)
             nfit += 1
@@ -121,7 +130,7 @@ def random_history(rng, fam, profile, maxlen=9):
         elif x < 0.80:
             ops.append(("construct", rng.randrange(len(L.SPECS[fam]))))
         elif x < 0.90:
-            ops.append(("df", (rng.choice(["O", "O", "L"]), rng.randrange(len(names)))))
+            ops.append(("df", (rng.choice(["O", "O", "L"]), rng.randrange(len(names))), rng.randrange(3)))
         else:
             ops.append(("mutate", rng.choice(["H", "H", "R"]), rng.randrange(6), rng.randrange(len(L.MUTATIONS))))
     lin = rng.choice(["fitted", "reloaded"])
@@ -340,6 +349,17 @@ def main():
     for p in problems:
         run.violation({"family": p["fam"], "call": p["spec"]["cls"], "broken": "constructor raised", "got": p["exc"].split(":")[0]},
                       "C02 setup: %s(%s) raised %s" % (p["spec"]["cls"], p["name"], p["exc"]), case=p, generator="c02lib.build_world")
+    # every frame-valued public attribute found on the live objects must be one the translator classified
+    CT = {v["python"]: v["accessors"] for v in flags["classes"].values()}
+    seen_acc = {}
+    for n, o in L.OBJ.items():
+        seen_acc.setdefault(o["cls"], set()).update(L.accessors_of(o["obj"]))
+    run.cov["frame_accessors"] = {c: {a: CT.get(c, {}).get(a, "NOT CLASSIFIED") for a in sorted(v)} for c, v in seen_acc.items()}
+    for c, v in seen_acc.items():
+        for a_ in v:
+            if a_ not in CT.get(c, {}):
+                run.corr_failures.append({"stream": "accessors", "case": {"class": c, "accessor": a_},
+                                          "model": "a frame is handed out through an attribute the translator did not classify"})
     # main fits (parallel, pickled back); fall back to fitting in the parent
     keys = [(f, p) for f in L.FAMS for p in L.PROFILES[f]]
     import pickle
